@@ -5,7 +5,7 @@ import PqModel.IoFault
 
 * `io.run <cap|-> <failAt|-> <mode> <plan>` — run a write plan through the writer model.
   `cap`: bufio size (`-` = unbuffered). `failAt`: the byte index the sink cannot store (`-` = none).
-  `mode`: `full` | `short` | `fullsticky` | `shortsticky`. `plan`: calls separated by `/`, each a
+  `mode`: `full` (= `capacity`) | `short` | `fullsticky` | `shortsticky` | `oneshot` | `oneshotshort`. `plan`: calls separated by `/`, each a
   comma list of operations (`-` = no operation):
   `w<n>` Write of n bytes, `s<n>` WriteString, `h<n>` file header (WriteString iff offset = 0),
   `r<n>` ReadFrom, `t<id>:<n>` store n bytes in store id, `d<id>:<c>` drain store id in chunks of c
@@ -26,10 +26,13 @@ open Driver PqModel.IoFault
 def parseFault? (failAt mode : String) : Option Fault := do
   let k ← if failAt == "-" then some none else (parseNat? failAt).map some
   match mode with
-  | "full" => some ⟨k, false, false⟩
-  | "short" => some ⟨k, true, false⟩
-  | "fullsticky" => some ⟨k, false, true⟩
-  | "shortsticky" => some ⟨k, true, true⟩
+  | "full" => some ⟨k, false, false, false⟩       -- = capacity
+  | "capacity" => some ⟨k, false, false, false⟩
+  | "short" => some ⟨k, true, false, false⟩
+  | "fullsticky" => some ⟨k, false, true, false⟩
+  | "shortsticky" => some ⟨k, true, true, false⟩
+  | "oneshot" => some ⟨k, false, false, true⟩
+  | "oneshotshort" => some ⟨k, true, false, true⟩
   | _ => none
 
 /-- n payload bytes starting at stream position `pos` -/
